@@ -98,7 +98,7 @@ EffPreEqRef == NoPostHocYet =>
        (r.kind = "absent" => v.kind = "none") /\ (r.kind # "absent" => v.pre = r.groups)
 EffPostEqRef == NoPostHocYet => \A k \in Created : \A name \in Names : MemberView(cl, fo, lst, k, name).post = RefPost(k, name)
 EffSnapEqRef == NoPostHocYet => \A k \in Created : \A name \in Names : MemberView(cl, fo, lst, k, name).snap = RefSnap(k, name)
-EffInvEqRef  == \A k \in Created : \A sel \in {"inv", "oncall", "onset"} : EffInvOf(cl, lst, k, sel) = RefInv(k, sel)
+EffInvEqRef  == NoPostHocYet => \A k \in Created : \A sel \in {"inv", "oncall", "onset"} : EffInvOf(cl, lst, k, sel) = RefInv(k, sel)
 RejectedExactly == \A k \in DOMAIN cl : (k < step \/ Settled) => (cl[k].ok <=> ~RefRejected(k))
 
 (* ---- C17: a definition step never changes what an earlier class shows ---- *)
@@ -113,8 +113,10 @@ NoSharedInvList ==
   Settled => \A k1, k2 \in Created : \A sel \in {"inv", "oncall", "onset"} :
                \* (a plain subclass of a plain class sees the very list of its base through attribute lookup: the
                \*  documentation leaves that case undefined; every class created through the metaclass owns its lists)
-               (k1 # k2 /\ InvListOf(cl, k1, sel) # 0 /\ (Stmt(k1).dbc \/ Stmt(k2).dbc))
-                  => InvListOf(cl, k1, sel) # InvListOf(cl, k2, sel)
+               \* a class created through the metaclass that does not own a list (its base was decorated only after
+               \* the class had been created) reads the base's list through inheritance; it gets copies of its own
+               \* the moment it is decorated itself (ApplyInvDeco), so only OWNED lists count here
+               (k1 # k2 /\ cl[k1][sel] # 0 /\ (Stmt(k1).dbc \/ Stmt(k2).dbc)) => cl[k1][sel] # cl[k2][sel]
 
 (* ---- C14: a stack of contract decorators has exactly one checker; the original stays reachable ---- *)
 DeclForeign(k, name) == Len(Sel(MemberDecl(k, name).decos, 1, "foreign"))
